@@ -73,7 +73,7 @@ def dump (st : S) : String :=
     let b := i * st.slot
     let w := hdrWords st.dev b
     let ws := ".".intercalate (w.map hexNat)
-    s!"s{i}={ws}/{hex16 (fnv (st.dev.flash.read (b + 0x400) 0x4000))}/{hex16 (fnv (st.dev.flash.read (b + 0x4400) (st.slot - 0x4400)))}")
+    s!"s{i}={ws}/{hex16 (fnvArray st.dev.flash.mem (b + 0x400) 0x4000)}/{hex16 (fnvArray st.dev.flash.mem (b + 0x4400) (st.slot - 0x4400))}")
 
 def sweep (st : S) : String :=
   let bad := (List.range st.nslots).filter fun i =>
@@ -154,6 +154,8 @@ def step (st : S) (toks : List String) : Option (S × String) :=
       | "ok" => s.markBootOk | _ => s.markBootBad
     let (r, d') := act.run d
     some ({ st with dev := disarm d' }, s!"res={resName r fun _ => "Ok"} ; ops={opsStr st.slot d'}")
+  | ["bl", _] => step st ["bl"]
+  | ["fb", _] => step st ["fb"]
   | ["bl"] =>
     let (r, _) := (blBootStatus st.nslots st.slot).run st.dev
     some (st, "res=" ++ resName r fun o => match o with
